@@ -462,6 +462,12 @@ def defer_let_branches(body):
             return br
         if br.get("k") == "Call" and str(br.get("f", {}).get("name", "")).startswith("unreachable"):
             return br
+        if pat.get("k") == "PTuple":
+            # `(a, b) = (x, y)` leaf by leaf
+            if br.get("k") != "Tup" or len(br.get("es", [])) != len(pat["ps"]):
+                return None
+            asg = [{"k": "Assign", "l": {"k": "Path", "res": "local", "id": q["id"], "name": q["name"]}, "r": e, "s": e.get("s", "")} for q, e in zip(pat["ps"], br["es"]) if q.get("k") == "PBind"]
+            return {"k": "Block", "stmts": asg, "s": br.get("s", "")}
         return {"k": "Assign", "l": {"k": "Path", "res": "local", "id": pat["id"], "name": pat["name"]}, "r": br, "s": br.get("s", "")}
 
     def fn(n):
@@ -470,19 +476,25 @@ def defer_let_branches(body):
         out = []
         changed = False
         for st in n.get("stmts", []):
-            if st.get("k") == "LetStmt" and st["pat"].get("k") == "PBind" and isinstance(st.get("init"), dict) and st["init"].get("k") in ("Match", "If") and "els" not in st:
+            tuple_ok = st.get("k") == "LetStmt" and st["pat"].get("k") == "PTuple" and all(q.get("k") in ("PBind", "PWild") for q in st["pat"].get("ps", []))
+            if st.get("k") == "LetStmt" and (st["pat"].get("k") == "PBind" or tuple_ok) and isinstance(st.get("init"), dict) and st["init"].get("k") in ("Match", "If") and "els" not in st:
                 init = st["init"]
                 if init.get("k") == "If" and ("el" not in init or init["c"].get("k") == "Let"):
                     out.append(st)
                     continue
                 # a plain two-way value (`if c { a } else { b }`, no statements in the branches) stays an expression
-                if init.get("k") == "If" and not any(x.get("k") == "Block" and x.get("stmts") for x in _walk(init)) and not any(x.get("k") == "Match" for x in _walk(init)):
+                if st["pat"].get("k") == "PBind" and init.get("k") == "If" and not any(x.get("k") == "Block" and x.get("stmts") for x in _walk(init)) and not any(x.get("k") == "Match" for x in _walk(init)):
                     out.append(st)
                     continue
                 branching = assign_into(init, st["pat"])
                 if branching is not None:
-                    decl = {k_: v_ for k_, v_ in st.items() if k_ != "init"}
-                    out.append(decl)
+                    if st["pat"].get("k") == "PTuple":
+                        for q in st["pat"]["ps"]:
+                            if q.get("k") == "PBind":
+                                out.append({"k": "LetStmt", "pat": q, "s": st.get("s", "")})
+                    else:
+                        decl = {k_: v_ for k_, v_ in st.items() if k_ != "init"}
+                        out.append(decl)
                     out.append(branching)
                     changed = True
                     continue
